@@ -94,6 +94,16 @@ def apply_in_place(root, old, new):
             T.materialise({name: b}, root)
 
 
+def lookup_is_file(tree, path):
+    cur = tree
+    comps = path.split("/")
+    for c in comps[:-1]:
+        if c not in cur or cur[c][0] != "d":
+            return False
+        cur = cur[c][1]
+    return comps[-1] in cur and cur[comps[-1]][0] == "f"
+
+
 def run_impl(local_tree, products, paths, patterns, lstrip, first_tree=None):
     d = tempfile.mkdtemp(prefix="verif-c19-")
     cwd = os.getcwd()
@@ -156,6 +166,16 @@ def one_case(rng, res):
         lstrip = [rng.choice(["./" + d0, d0 + "/", d0.rstrip("/") + "//", "zz/../" + d0])]
     local_tree, edits = edit_tree(rng, tree)
     paths = gen_paths(rng, tree, local_tree)
+    nested_files = [p_ for p_, n_ in T.all_paths(tree) if n_[0] == "f" and "/" in p_ and lookup_is_file(local_tree, p_)]
+    if paths and paths != ["."] and nested_files and rng.random() < 0.35:
+        # a file named explicitly, spelt with a doubled slash / a dot segment / a detour, and an exclude pattern with a
+        # directory component that leaves it out: patterns apply to the normalised name, like everything else
+        f = rng.choice(nested_files)
+        d_, b_ = f.rsplit("/", 1)
+        spelt = rng.choice([d_ + "//" + b_, d_ + "/./" + b_, d_ + "/zz/../" + b_, "./" + f, f])
+        paths = [x for x in paths if x != f and not f.startswith(x + "/")] + [spelt]
+        if rng.random() < 0.7:
+            patterns = [d_ + "/*" + (("." + b_.rsplit(".", 1)[1]) if "." in b_ else "")]
     import in_toto.settings as st
     eff = patterns or list(st.ARTIFACT_EXCLUDE_PATTERNS)
     ref_p = T.reference_record(tree, paths or ["."], eff, True, False, lstrip or [])
